@@ -219,6 +219,15 @@ theorem c13_prefix_f10k_witness :
       #[95, 90, 78, 49, 67, 73, 76, 102, 51, 102, 99, 48, 48, 48, 48, 48, 69, 69, 49, 109, 69, 118] =
       .str (bs%"C::m") := by decide +kernel
 
+/-- F10j: `_Z1fIiEDTdvfp_fp0_ET_S1_` (g++ and clang++: `template<class T> auto f(T a, T b) -> decltype(a / b)`
+    instantiated with `int`): the binary-operator loop of `dd_expression` skipped every code with
+    `c1 == 'v'` (meant for `cv`), so `dv` fell through to `dd_unresolved_name`, the parse failed and the name
+    came back unchanged (likewise `cm`, `co`; `nw`/`na` were taken for binary operators). -/
+theorem c13_prefix_f10j_witness :
+    demangle { Fixes.all with exprOps := false } #[95, 90, 49, 102, 73, 105, 69, 68, 84, 100, 118, 102, 112, 95, 102, 112, 48, 95, 69, 84, 95, 83, 49, 95] =
+      .str [95, 90, 49, 102, 73, 105, 69, 68, 84, 100, 118, 102, 112, 95, 102, 112, 48, 95, 69, 84, 95, 83, 49, 95] ∧
+    demangle Fixes.all #[95, 90, 49, 102, 73, 105, 69, 68, 84, 100, 118, 102, 112, 95, 102, 112, 48, 95, 69, 84, 95, 83, 49, 95] = .str (bs%"f") := by decide +kernel
+
 /-- with the repairs these inputs come back unchanged; `_Z3a$C` becomes `aa$C` (the code re-appends the
     text before an unmapped `$`, observation F10h — a wrong result, not a memory error, kept as is) -/
 example : demangle Fixes.all #[95, 90, 67, 49, 118] = .str [95, 90, 67, 49, 118] := by decide
